@@ -13,6 +13,14 @@ Theorem from_range_exact : forall n lo hi k, (0 <= k < n)%Z -> ~ inject_Z k == l
 Proof. exact Lemmas.from_range_exact. Qed.
 Print Assumptions from_range_exact.
 
+(* label_path_exact: the label level of the same path, for a component whose categories are listed in ANY order without repetition
+   (labels = their rank in ascending label order): from_range stores np.unique of the slice, contains binary-searches the stored
+   labels; the label plotted at position k is accepted exactly when from_range selects the index k *)
+Theorem label_path_exact : forall cats lo hi k, NoDup cats -> (0 <= k < Z.of_nat (length cats))%Z ->
+  cat_contains_ss (stored_from_range cats lo hi) (nth (Z.to_nat k) cats 0%Z) = zmem k (from_range (Z.of_nat (length cats)) lo hi).
+Proof. exact Lemmas.label_path_exact. Qed.
+Print Assumptions label_path_exact.
+
 (* range regions: only the region's own axis matters; numeric (inclusive range) and categorical (from_range) alike *)
 Theorem range_dispatch : forall (isx : bool) lo hi g xk yk e v,
   let a := if isx then AX else AY in
